@@ -4,7 +4,10 @@
 // The test runs them in Go and checks, inside Coq, that the translated functions compute the same values.
 package gtfix
 
-import "errors"
+import (
+	"bytes"
+	"errors"
+)
 
 type Kind int
 
@@ -466,4 +469,21 @@ func Evens(n int) []int {
 		}
 	}
 	return r
+}
+
+// BufJoin: a local bytes.Buffer as an accumulator inside a loop (WriteString, WriteByte, Len, Reset, String).
+func BufJoin(s string, n int) string {
+	var out bytes.Buffer
+	for i := 0; i < len(s); i++ {
+		if out.Len() >= n {
+			out.Reset()
+			out.WriteString("..")
+		}
+		if s[i] == '.' {
+			continue
+		}
+		out.WriteByte(s[i])
+		out.Write([]byte("-"))
+	}
+	return out.String() + "|"
 }
